@@ -6,6 +6,7 @@ import (
 	"strings"
 
 	"github.com/iancoleman/strcase"
+	"github.com/pentops/j5/gen/j5/schema/v1/schema_j5pb"
 	"github.com/pentops/j5/lib/j5reflect"
 	"google.golang.org/grpc/codes"
 	"google.golang.org/grpc/status"
@@ -44,6 +45,22 @@ func propertyAtPath(root j5reflect.Root, path string) (j5reflect.Property, error
 	return root.GetProperty(tail)
 }
 
+// queryScalarValue converts the text of a query parameter to the Go value the
+// scalar setters take. Every scalar kind is set from its text form, as from a
+// JSON string, except bool: a JSON boolean is a bare literal and a JSON string
+// in a bool field is rejected, so the two literals are converted here.
+func queryScalarValue(schema schema_j5pb.IsField_Type, value string) interface{} {
+	if _, ok := schema.(*schema_j5pb.Field_Bool); ok {
+		switch value {
+		case "true":
+			return true
+		case "false":
+			return false
+		}
+	}
+	return value
+}
+
 func (c *Codec) decodeQuery(queryString url.Values, msg protoreflect.Message) error {
 	root, err := c.refl.NewRoot(msg)
 	if err != nil {
@@ -69,7 +86,7 @@ func (c *Codec) decodeQuery(queryString url.Values, msg protoreflect.Message) er
 			if len(values) > 1 {
 				return status.Error(codes.InvalidArgument, fmt.Sprintf("multiple values provided for non-repeated field %q", key))
 			}
-			err = scalar.SetGoValue(values[0])
+			err = scalar.SetGoValue(queryScalarValue(scalar.FieldSchema(), values[0]))
 			if err != nil {
 				return status.Error(codes.InvalidArgument, fmt.Sprintf("invalid value %q for field %q", values[0], key))
 			}
@@ -77,8 +94,9 @@ func (c *Codec) decodeQuery(queryString url.Values, msg protoreflect.Message) er
 		}
 
 		if array, ok := field.AsArrayOfScalar(); ok {
+			itemSchema := array.ItemSchema().ToJ5Field().Type
 			for _, value := range values {
-				_, err = array.AppendGoValue(value)
+				_, err = array.AppendGoValue(queryScalarValue(itemSchema, value))
 				if err != nil {
 					return status.Error(codes.InvalidArgument, fmt.Sprintf("invalid value %q for field %q", value, key))
 				}
